@@ -407,7 +407,7 @@ func (e *bndEngine) discharge(ob bndOb) bndResult {
 			if !isMU || mu == x {
 				return
 			}
-			if pathOf(mu.Map) == pathOf(lk.X) && mu.Key == lk.Index && instrDominates(mu, x) {
+			if canonPath(mu.Map) == canonPath(lk.X) && mu.Key == lk.Index && instrDominates(mu, x) {
 				if _, isMk := mu.Value.(*ssa.MakeMap); isMk {
 					ok = true
 				}
@@ -425,7 +425,7 @@ func (e *bndEngine) discharge(ob bndOb) bndResult {
 					continue
 				}
 				if mc, isMC := cl.Common().Args[1].(*ssa.MakeClosure); isMC && mc.Fn == ssa.Value(ob.Fn) {
-					if pathOf(cl.Common().Args[0]) == pathOf(lk.X) {
+					if canonPath(cl.Common().Args[0]) == canonPath(lk.X) {
 						okEach = true
 					}
 				}
